@@ -163,7 +163,8 @@ type c10Pkt struct {
 	PNLen       int
 	PNTrunc     uint64
 	PN          int64 // as decoded by a receiver
-	HdrLen      int   // first byte .. packet number inclusive
+	Header      []byte // the header bytes with header protection removed
+	HdrLen      int    // first byte .. packet number inclusive
 	PacketLen   int   // header + payload + tag
 	Trailing    []byte
 	Payload     []byte
@@ -260,6 +261,7 @@ func c10Open(dg []byte, keyDCID []byte, largest int64, forcePN int64) (*c10Pkt, 
 		p.PNTrunc = p.PNTrunc<<8 | uint64(pkt[pos+i])
 	}
 	p.HdrLen = pos + p.PNLen
+	p.Header = append([]byte{}, pkt[:p.HdrLen]...)
 	p.PacketLen = len(pkt)
 	p.PN = c10DecodePN(largest, p.PNTrunc, p.PNLen)
 	if forcePN >= 0 {
